@@ -233,7 +233,7 @@ Definition mon0 (m0 : mst) (o : op) (outs : list obs) : mst * verdict :=
   match o with
   | Setup t =>
       if m_conf m0 || bad_tmo t then (m, shape (match outs with [NotRunnable] => true | _ => false end))
-      else (with_conf m0 t, shape (match outs with [Ready] => true | _ => false end))
+      else (with_conf m0 (announced t), shape (match outs with [Ready] => true | _ => false end))
   | Call t c => mon_call m t c outs
   | Resume t => mon_resume m t outs
   | Tick g => mon_tick m g outs
